@@ -134,7 +134,8 @@ def run(plugin, prop, tier, seed, t0):
     # rewritten from the source and `GenLogic.<name>_eq_model` (definition = hand-written model) is one more obligation of the property
     gen_logic = None
     if getattr(plugin, 'GEN_LOGIC', None):
-        gl, gen_logic = common.gen_logic_audit(plugin.GEN_LOGIC)
+        # corollaries that also depend on functions another property owns are audited by that property only (GEN_LOGIC_COROLLARIES = False)
+        gl, gen_logic = common.gen_logic_audit(plugin.GEN_LOGIC, corollaries=getattr(plugin, 'GEN_LOGIC_COROLLARIES', True))
         # A function that can no longer be *read* (moved into a helper, renamed, rewritten outside the translator's subset) is not an
         # undischarged theorem: nothing was regenerated, so nothing was refuted.  The hand-written model function keeps its other tie —
         # the correspondence streams of this run, where any difference in behaviour is a mismatch and is decided below.  The lost tie is
